@@ -140,4 +140,9 @@ let () =
                 let pt = Sx.atom pt in
                 out ("links." ^ pt) (links_key !s pt (Sx.atoms names) (Sx.atoms doms))
             | _ -> failwith "bad observer") obs) ops
+    | [id; Sx.A "hier"; gs; ps; domidx] ->
+        let dom = let d = int_of_string (Sx.atom domidx) in if d < 0 then None else Some (Conv.nat_of_int d) in
+        let v = match Priority.sort_by_hierarchy (crules gs) dom (crules ps) with
+          | Some l -> rskey l | None -> "err" in
+        Printf.printf "%s\thier\t%s\n" (Sx.atom id) v
     | _ -> failwith "bad case")
